@@ -10,12 +10,17 @@ Per run:
   (2) the conclusions of the conservation theorems evaluated on the Q instance for every case;
   (3) the property predicates on the implementation itself (independent index arithmetic in harness/impl/c10_impl.py):
       totals conserved, the axis labelled L carries population L's marginal spectrum, commutation with project
-      (on the axes that are not merged / dropped) and with fold on unmasked data: data, mask, labels AND folded flag.
+      (on the axes that are not merged / dropped) and with fold on unmasked data: data, mask, labels AND folded flag;
+  (4) size regimes (harness/props/c10_sizes.py): on every run every operation on the smallest legal spectra and on
+      systematically chosen large ones (binomials / products of binomials beyond 2^31, 2^53, 2^63, 2^64, 2^128, the
+      float64 range; axes beyond 255 entries; more than 65535 entries), compared entry by entry with the explicit
+      re-indexing in exact arithmetic, and with the Coq model where vm_compute affords it (pcheck_full_fast).
 """
 import itertools, json, math
 from fractions import Fraction
 from harness import lib
 from harness.lib import q, ql, b, bl, natl
+from harness.props import c10_sizes
 
 TOL = Fraction(1, 10 ** 11)
 TOLF = 1e-11
@@ -165,6 +170,8 @@ def gen_cases(ctx):
             c = make_case(ctx, len(cases), rand_shape(rng, d, 64), op, args)
             c['predicates'] = False; c['refusal'] = True
             cases.append(c)
+    # size regimes: the smallest legal and systematically chosen large sample sizes for every operation, on every run
+    cases += c10_sizes.gen_size_cases(ctx, make_case, len(cases))
     return cases
 
 # ------------------------------------------------------------------------------------------------------
@@ -212,6 +219,9 @@ CODES = {-1: 'the code refuses / accepts the call and the model does the opposit
 def judge_predicates(ctx, c, r):
     """property predicates evaluated on the implementation; returns list of failure descriptions"""
     bad = []
+    # large cases beyond N = 1000 chromosomes: exp(gammaln) weights (projection, re-dealing) are only good to a few ulps of
+    # gammaln(N+2) in the exponent; 1e-11 for every other case
+    tolf = c10_sizes.size_tol(c['shape']) if c.get('big') else TOLF
     P = r.get('pred')
     if P is None:
         if 'pred_error' in r:
@@ -220,9 +230,9 @@ def judge_predicates(ctx, c, r):
     if 'shape' in P:
         bad.append(('result has shape %r, the explicit re-indexing has shape %r' % (P['shape']['got'], P['shape']['want']), 'shape'))
         return bad
-    got, exp, scale = P['total']
-    ctx.count('pred:total')
-    if not abs(got - exp) <= TOLF * max(scale, 1e-300):
+    got, exp, scale = P['total'] if 'total' in P else (0.0, 0.0, 1.0)      # large cases: totals are part of the exact reference
+    ctx.count('pred:total' if 'total' in P else 'pred:total in the exact reference')
+    if not abs(got - exp) <= tolf * max(scale, 1e-300):
         bad.append(('total not conserved: sum of the unmasked result %r, sum of the entries mapped there %r' % (got, exp), 'total'))
     L = P.get('labels')
     if L is not None:
@@ -233,7 +243,7 @@ def judge_predicates(ctx, c, r):
     pr = P.get('project')
     if pr is not None:
         ctx.count('pred:project')
-        if (not pr['shape_ok'] or not pr['err'] <= TOLF * max(pr['scale'], 1.0) or not pr['mask_equal'] or pr['ids'][0] != pr['ids'][1]
+        if (not pr['shape_ok'] or not pr['err'] <= tolf * max(pr['scale'], 1.0) or not pr['mask_equal'] or pr['ids'][0] != pr['ids'][1]
                 or pr['folded'][0] != pr['folded'][1]):
             bad.append(('does not commute with projection to %r on unmasked data: %r' % (c['proj'], pr), 'project'))
     for mc in (0, 1):
@@ -241,7 +251,7 @@ def judge_predicates(ctx, c, r):
         if fr is None:
             continue
         ctx.count('pred:fold')
-        if not fr['shape_ok'] or not fr['err'] <= TOLF * max(fr['scale'], 1.0) or not fr['mask_equal'] or fr['ids'][0] != fr['ids'][1]:
+        if not fr['shape_ok'] or not fr['err'] <= tolf * max(fr['scale'], 1.0) or not fr['mask_equal'] or fr['ids'][0] != fr['ids'][1]:
             bad.append(('does not commute with folding on unmasked data (mask_corners=%d): %r' % (mc, fr), 'fold'))
         elif fr['folded'][0] is not True or fr['folded'][1] is not True:
             bad.append(('does not commute with folding (mask_corners=%d): %s of the folded spectrum has folded=%r, folding the %s of the '
@@ -252,7 +262,12 @@ def run(ctx):
     ctx.rule = ('cases = (dimension 2..6, unequal sample sizes, operation, its argument (subset / permutation / pair / merge set, '
                 'exhaustive for d<=4 in the thorough tier), labels or none, unfolded / folded by fold() / folded given directly, '
                 'no / corner / random masks, dyadic data) from one PRNG, plus calls the code must refuse; distinct = distinct '
-                '(shape, op, args, labels, folding, mask); non-trivial = every accepted call')
+                '(shape, op, args, labels, folding, mask); non-trivial = every accepted call.  SIZE REGIMES, on every run (fixed lists in '
+                'harness/props/c10_sizes.py, not drawn): every operation on the smallest legal spectra (n = 1, 2 in 2..6 dimensions) and on '
+                'large ones chosen so that the largest product of per-population binomials / the largest single binomial / the pool '
+                'binomial cross 2^31, 2^53, 2^63, 2^64, 2^128 and the float64 range, axes exceed 127 / 255 entries and arrays 32767 / '
+                '65535 entries (e.g. (20,31) (29,30) (34,35) (30,40) (66,66) (67,5) (3,80) (1,200) (2,1100) (70,1100) (22,24,26) '
+                '(10,11,12,13)); an obligation recomputes the bands from the cases that were actually evaluated')
     ctx.assumptions += ['float64 sums are compared with exact rational sums at 1e-11 relative to the largest entry',
                         'scramble_pop_ids: exp(gammaln) weights compared with exact binomial ratios at the same tolerance',
                         'values under masked entries are not compared (masks are compared exactly)',
@@ -260,7 +275,21 @@ def run(ctx):
                         '(pooling two populations and then subsampling is a different experiment from subsampling each); '
                         'scramble_pop_ids is not claimed to commute with projection',
                         'Misc.combine_pops works on the raw data and ignores mask and folding by design; it is compared as such']
-    ctx.trusted += ['harness/impl/c10_impl.py: independent index arithmetic for the predicates on the implementation']
+    ctx.assumptions += ['every case is ALSO compared entry by entry (shape, mask, labels, folded flag, nan pattern, values at 1e-11 relative '
+                        'PER ENTRY) with the explicit re-indexing computed in exact arithmetic (scaled integers; fractions / math.comb for '
+                        'the re-dealing weights) by harness/props/c10_sizes.py; for the large cases this is the entry-wise reference, the '
+                        'Coq model is evaluated on those of at most 1500 entries (quick: 12 of them; thorough: all) through '
+                        'pcheck_full_fast, which Props/C10.v proves equal to the check on the model for every case',
+                        'large cases beyond N = 1000 chromosomes (scramble_pop_ids entries and total, commutation with projection / folding): '
+                        'tolerance max(1e-11, 64 ulp of gammaln(N+2)) (exp(sum of gammaln) cannot do better in float64; 4.7e-11 at '
+                        'N = 1102, observed 3e-12); 1e-11 for every case up to N = 290',
+                        'large cases: the driver evaluates commutation with projection and folding on the real code; totals and labels are '
+                        'part of the exact entry-wise reference there']
+    ctx.trusted += ['harness/impl/c10_impl.py: independent index arithmetic for the predicates on the implementation',
+                    'harness/props/c10_sizes.py: exact explicit re-indexing (cross-checked on every small case against the real code and, '
+                    'through it, the Coq model)']
+    import time
+    t0 = time.time()
     cases = gen_cases(ctx)
     if ctx.replay:
         rp = json.load(open(ctx.replay))
@@ -268,12 +297,19 @@ def run(ctx):
             c = rp['input']['case']; c['id'] = 0
             cases = [c]
     res = []
-    chunk = 400
-    for k in range(0, len(cases), chunk):
-        res += lib.run_impl('c10_impl.py', cases[k:k + chunk], timeout=1500)
+    nproc = 1 if len(cases) < 8 else 3          # independent cases, interleaved over three fresh interpreters
+    from concurrent.futures import ThreadPoolExecutor
+    with ThreadPoolExecutor(max_workers=nproc) as ex:
+        for part in ex.map(lambda k: lib.run_impl('c10_impl.py', cases[k::nproc], timeout=1500), range(nproc)):
+            res += part
     byid = {r['id']: r for r in res}
+    t1 = time.time()
     exprs = []
+    exprs_fast = []
     meta = {}
+    nxbad = 0
+    if not ctx.replay:
+        c10_sizes.coverage_obligation(ctx, cases, byid)
     for c in cases:
         r = byid[c['id']]
         d = len(c['shape'])
@@ -294,7 +330,10 @@ def run(ctx):
             ctx.violation('%s returns a Spectrum whose folded attribute is %r' % (c['op'], out['folded']), data={'case': c, 'impl': r})
         if out is not None and out.get('inf'):
             ctx.violation('%s returns infinite entries' % c['op'], data={'case': c, 'impl': r})
-        sig = (tuple(c['shape']), c['op'], json.dumps(c['args'], sort_keys=True), bool(c['pop_ids']), c['folded'], tuple(r['input']['mask']))
+        sig = (tuple(c['shape']), c['op'], json.dumps(c['args'], sort_keys=True), bool(c['pop_ids']), c['folded'],
+               tuple(k for k, m in enumerate(r['input']['mask']) if m) if c.get('big') else tuple(r['input']['mask']))
+        if c.get('size_regime'):
+            ctx.count('size regime: ' + ('large' if c.get('big') else 'smallest'))
         ctx.case(signature=sig if out is not None else None,
                  sample={'op': c['op'], 'args': c['args'], 'shape': c['shape'], 'pop_ids': c['pop_ids'], 'folded': c['folded'],
                          'out_shape': out and out['shape'], 'out_pop_ids': out and out['pop_ids'],
@@ -305,10 +344,38 @@ def run(ctx):
                            not bad, 'predicate', '; '.join(w for w, _ in bad)[:400])
         for what, kind in bad:
             ctx.violation('%s%r on shape %r: %s' % (c['op'], c['args'], c['shape'], what), data={'case': c, 'impl': r})
+        # the explicit re-indexing of every entry in exact arithmetic (all cases; the only entry-wise reference for the large ones)
+        xbad = c10_sizes.judge_exact(c, r)
+        ctx.count('exact reference')
+        ctx.obligation('exact re-indexing case %d (%s%s) shape %r' % (c['id'], c['op'], json.dumps(c['args'], sort_keys=True), c['shape']),
+                       not xbad, 'predicate', '; '.join(w for w, _ in xbad)[:400])
+        if xbad:
+            nxbad += 1
+            if nxbad <= 6:
+                ctx.violation('%s%r on a %s spectrum with sample sizes %r (labels %r) is not the explicit re-indexing of its entries: %s'
+                              % (c['op'], c['args'], {'no': 'unfolded', 'fold': 'folded', 'direct': 'folded'}[c['folded']],
+                                 [s_ - 1 for s_ in c['shape']], c['pop_ids'], '; '.join(w for w, _ in xbad)),
+                              data={'case': c, 'impl': r if len(c['data']) <= 20000 else {k: v for k, v in r.items() if k != 'input'}})
+        if c.get('big'):
+            # evaluating the Gallina model on arrays of this size inside Coq is affordable for some (pcheck_full_fast: Pascal rows
+            # for the binomials, proved to return what pcheck_full returns: C10_fast_check_is_the_check), not for the largest
+            if c.get('coq_fast'):
+                n = 1000000 + len(exprs_fast)
+                exprs_fast.append((n, coq_case(c, r)))
+                meta[n] = c
+            continue
         n = len(exprs)
         exprs.append((n, coq_case(c, r)))
         meta[n] = c
+    t2 = time.time()
     results = ctx.coq_cases('corr', HEADER, exprs, '(pcheck_full %s)' % q(TOL), 'tol 1e-11 x largest entry', shard=ctx.pick(12, 24), timeout=1500)
+    t3 = time.time()
+    if exprs_fast:
+        results.update(ctx.coq_cases('corrlarge', HEADER, exprs_fast, '(pcheck_full_fast %s)' % q(TOL), 'tol 1e-11 x largest entry',
+                                     shard=ctx.pick(2, 3), timeout=1500))
+        ctx.count('large cases evaluated on the Coq model', len(exprs_fast))
+    ctx.notes.append('wall: generator + real code %.0f s, predicates + exact reference %.0f s, Coq %d ordinary cases %.0f s, Coq %d large cases %.0f s'
+                     % (t1 - t0, t2 - t1, len(exprs), t3 - t2, len(exprs_fast), time.time() - t3))
     nbad = 0
     for n, c in meta.items():
         rr = results.get(n)
